@@ -38,11 +38,20 @@ func (fe *FE) addOb(st *State, kind, label string, tags []string, goal, src stri
 	}
 	ob := &Obligation{
 		Name: name, Func: fe.FnName, Kind: kind, Tags: tags, Src: src, Pos: fe.curPos,
-		Path:  strings.Join(st.path, " > "),
-		Decls: append([]string(nil), st.decls...),
-		Facts: append([]string(nil), st.facts...),
-		Goal:  goal,
+		Path: strings.Join(st.path, " > "),
+		Goal: goal,
 	}
+	// A |- A: the goal is literally one of the path facts (typical for invariants over state the loop does not touch)
+	for i := len(st.facts) - 1; i >= 0; i-- {
+		if st.facts[i] == goal {
+			ob.Result = "unsat"
+			ob.Solver = "syntactic"
+			fe.Obs = append(fe.Obs, ob)
+			return
+		}
+	}
+	ob.Decls = append([]string(nil), st.decls...)
+	ob.Facts = append([]string(nil), st.facts...)
 	fe.Obs = append(fe.Obs, ob)
 }
 
@@ -310,6 +319,7 @@ func (fe *FE) runBlock(st *State, b, pred *ssa.BasicBlock) {
 	if len(fe.errs) > 20 {
 		return
 	}
+	st.curBlock = b
 	// loop head handling
 	if li, isHead := fe.loops[b]; isHead {
 		if st.open[b] {
@@ -418,7 +428,17 @@ func (fe *FE) havocLoop(st *State, li *loopInfo) {
 	}
 	names := sortedKeys(li.modHeap)
 	for _, name := range names {
+		before, had := st.heap[name]
 		fe.havocHeap(st, name)
+		if rowPreservable(name) {
+			after := st.heap[name]
+			if !had || before == "?" {
+				before = name + "!0"
+			}
+			if after != "?" && after != before {
+				st.assume(fmt.Sprintf("(forall ((a Int)) (! (=> (<= a cnt!entry) (= (select %s a) (select %s a))) :pattern ((select %s a))))", after, before, after))
+			}
+		}
 	}
 	for _, g := range sortedKeys(li.modGh) {
 		if old, ok := st.ghosts[g]; ok {
